@@ -29,3 +29,12 @@ Proof. unfold eplan. destruct stop0; [reflexivity|]. cbn [ewf]. apply eloop_wf. 
 Lemma eplan_before_fix_open :
   ewf (eplan false [{| e_enabled := true; e_body := 0; e_status := SUCCESS; e_stop := true; e_limit := false; e_ki := KiBeforeFinish |}] false) = false.
 Proof. reflexivity. Qed.
+
+(* whatever happens on the probe request, the probing phase is opened and closed once and the plan goes on / finishes *)
+Lemma probing_closed b rest stop0 : ewf (eplan true (probing_phase b :: rest) stop0) = true.
+Proof. apply eplan_wf. Qed.
+
+Lemma probing_status b :
+  e_ki (probing_phase b) = KiNone ->
+  e_status (probing_phase b) = match b with PbRequestError => ERROR | _ => SUCCESS end.
+Proof. destruct b as [st| | |]; cbn; try reflexivity; try discriminate. destruct (Nat.eqb st 400); reflexivity. Qed.
